@@ -178,7 +178,7 @@ pub fn c03(tier: Tier) -> i32 {
         "every model-valid text of each universe is parsed and printed unedited; printed == N(input) (N = drop BOM, CRLF->LF outside multi-line strings, final newline) whenever keys sharing a dotted prefix are adjacent, and always: printed text valid (model), decodes equal, same multiset of comments, fixed point of parse->print; non-trivial = distinct valid documents with at least one statement or comment",
     );
     rep.assumptions = vec!["refmodel's token layout (multi-line string extents, comments, last-line kind) is correct; validated indirectly: N(x) is compared with the real output on millions of documents".into()];
-    docu::run(&mut rep, tier, &["decor", "stmt", "tok", "ctx", "corpus", "num", "dt", "cp", "reopen"], &c03_eval);
+    docu::run(&mut rep, tier, &["decor", "stmt", "tok", "ctx", "corpus", "num", "dt", "cp", "bom", "reopen"], &c03_eval);
     rep.finish()
 }
 
